@@ -1,56 +1,9 @@
+import SccacheModel.Gen.StatsTable
+
 namespace StatsM
 
-/-! Sketch + proofs (design round): server statistics as a fold of counter increments (C14).
-    `incsOf` is the table the translator regenerates from `check_compiler` / `start_compile_task`. -/
-
-inductive Counter where
-  | compileRequests | unsupported | notCompile | notCacheable | executed
-  | cacheErrors | cacheHits | cacheMisses | cacheTimeouts | nonCacheableCompilations | forcedRecaches
-  | cacheWriteErrors | cacheWrites | compilations | compileFails
-deriving Repr, DecidableEq
-
-inductive MissType where | normal | forcedNoCache | forcedRecache | timedOut | cacheReadError
-deriving Repr, DecidableEq
-
-/-- what happened to one executed request (the `CompileResult` / error arm) -/
-inductive Outcome where
-  | errorPP                       -- `CompileResult::Error` (preprocessor failed)
-  | hit
-  | miss (t : MissType) (storeOk : Bool)
-  | notCached
-  | notCacheable
-  | compileFailed
-  | errProcess                    -- `Err(ProcessError)`
-  | errHttp                       -- `Err(HttpClientError)`
-  | errFatal                      -- any other `Err`
-deriving Repr, DecidableEq
-
-/-- the four dispositions of `check_compiler` -/
-inductive Disp where
-  | unsupported | notCacheable | notCompile | executed (o : Outcome)
-deriving Repr, DecidableEq
-
-/-- GENERATED (hand-copied in this sketch) from the match arms of `start_compile_task` -/
-def incsOfOutcome : Outcome → List Counter
-  | .errorPP => [.cacheErrors]
-  | .hit => [.cacheHits]
-  | .miss t ok =>
-    (match t with
-      | .normal => [] | .forcedNoCache => [] | .forcedRecache => [.forcedRecaches]
-      | .timedOut => [.cacheTimeouts] | .cacheReadError => [.cacheErrors])
-    ++ [.compilations, .cacheMisses] ++ [if ok then .cacheWrites else .cacheWriteErrors]
-  | .notCached => [.compilations]
-  | .notCacheable => [.compilations, .nonCacheableCompilations]
-  | .compileFailed => [.compilations, .compileFails]
-  | .errProcess => [.compileFails]
-  | .errHttp => []
-  | .errFatal => [.cacheErrors]
-
-def incsOfRequest : Disp → List Counter
-  | .unsupported => [.compileRequests, .unsupported]
-  | .notCacheable => [.compileRequests, .notCacheable]
-  | .notCompile => [.compileRequests, .notCompile]
-  | .executed o => [.compileRequests, .executed] ++ incsOfOutcome o
+/-! Server statistics as a fold of counter increments (C14). `incsOfOutcome` / `incsOfRequest` are regenerated from
+    `check_compiler` / `start_compile_task` (src/server.rs) on every run (Gen/StatsTable.lean). -/
 
 abbrev Stats := Counter → Nat
 
